@@ -33,6 +33,34 @@ type Engine struct {
 	Stats    *Stats
 	freshMu  sync.Mutex
 	freshMem map[string]*freshResult
+	dupOnce  sync.Once
+	dupOK    bool
+}
+
+// DuplicatesRejected is the premise of the only label-derived expectation of
+// C19 ("a set variable that lists one provider twice is malformed"): it holds
+// if wire itself rejects the same defect when an injector uses it. If a change
+// to the accept rules makes wire accept duplicates, such sets are well-formed
+// by wire's own rules and check/show need not fail for them.
+func (e *Engine) DuplicatesRejected(scratch string) bool {
+	e.dupOnce.Do(func() {
+		dir, err := os.MkdirTemp(scratch, "dup-")
+		if err != nil {
+			return
+		}
+		defer os.RemoveAll(dir)
+		files := append(Sources("lib", "lib_ok", 1), Sources("pa", "bad_multi", 1)...)
+		w, err := world.New(dir, world.LayoutMod, "", e.B.MarkerGo, files)
+		if err != nil {
+			return
+		}
+		res := w.Exec(e.B.WireSim, w.AppDir, &world.Plan{Seed: 1, Iter: "asc"}, dir, nil, "gen", "./pa")
+		e.dupOK = res.Exit != 0 && strings.Contains(res.Stderr, "multiple bindings")
+		if !e.dupOK {
+			e.Stats.Counts.Add("premise_duplicates_not_rejected_by_wire", 1)
+		}
+	})
+	return e.dupOK
 }
 
 // NewEngine creates an engine.
@@ -607,7 +635,7 @@ func (s *sim) cmd(idx int, st Step) string {
 		case ClassTypeErr:
 			typeErrT = append(typeErrT, n)
 		}
-		if vi.BadSet {
+		if vi.BadSet && e.DuplicatesRejected(s.scratch) {
 			badSet = true
 		}
 	}
